@@ -33,7 +33,7 @@ ASSUMPTIONS = [
     "failure *kind* is compared loosely inside coalesce (validate order vs evaluate order may name a different member's failure)",
 ]
 FLOORS = {"compared": (1500, 30000), "ok_values": (600, 12000), "no_branch_failures": (40, 800), "map_pairs_checked": (30, 300), "map_under_dataset_steps": (150, 3000)}
-COVER = {"kinds_ok": ["switch", "case", "coalesce", "bind", "map", "list", "tuple", "set", "dict", "apply", "ds", "tmpl", "with", "cached"]}
+COVER = {"kinds_ok": ["switch", "case", "coalesce", "bind", "map", "list", "tuple", "set", "dict", "apply", "ds", "tmpl", "with", "cached", "dc"]}
 SHARDS_QUICK = 4
 
 BRANCHING = {"switch", "case", "coalesce", "bind", "map", "ds"}
